@@ -102,6 +102,7 @@ structure St where
   sc : SizeCalc := ⟨0⟩
   fw : Option FixedW := none      -- none: not created, or dead after a typed write threw
   rd : Option Reader := none      -- none: not opened, or dead after a typed read threw
+  rdLive : Bool := false          -- the reader shares the BufferWriter's array: it sees the array as it is NOW
 
 def pat (seed : Nat) : Nat → UInt8 := fun i => UInt8.ofNat ((seed + i) % 256)
 
@@ -135,7 +136,11 @@ def rle (xs : List String) : List String :=
   | [] => []
   | x :: rest => go x 1 rest
 
-def stepSt (s : St) : List String → St × String
+/-- a reader opened on the BufferWriter's shared array reads `buffer->size()` and the bytes at the time of each call -/
+def sync (s : St) : St :=
+  if s.rdLive then { s with rd := s.rd.map fun r => { r with buf := s.bw.buf } } else s
+
+def stepSt0 (s : St) : List String → St × String
   | ["w", ty, val] =>
     match parseTyS ty with
     | none => (s, "bad-type")
@@ -194,19 +199,23 @@ def stepSt (s : St) : List String → St × String
       | none => (s, "fault")
   | ["rd_open", "bw"] =>
     let r : Reader := ⟨s.bw.buf, 0⟩
-    ({ s with rd := some r }, s!"size={r.size} " ++ rdState r)
+    ({ s with rd := some r, rdLive := true }, s!"size={r.size} " ++ rdState r)
+  | ["bw_take", _how] =>
+    -- the written bytes are moved out of the writer's array (OwnedArray move construction / assignment): the
+    -- receiver holds them, the writer's array is empty again and can be reused
+    ({ s with bw := ⟨[]⟩ }, s!"{hexOrDash s.bw.buf} n=0")
   | ["rd_open", "fw"] =>
     match s.fw.bind (·.writtenView) with
     | none => (s, "dead")
     | some bs =>
       let r : Reader := ⟨bs, 0⟩
-      ({ s with rd := some r }, s!"size={r.size} " ++ rdState r)
+      ({ s with rd := some r, rdLive := false }, s!"size={r.size} " ++ rdState r)
   | ["rd_open", "trunc", m] =>
     match m.toNat? with
     | none => (s, "bad-op")
     | some m =>
       let r : Reader := ⟨s.bw.buf.take m, 0⟩
-      ({ s with rd := some r }, s!"size={r.size} " ++ rdState r)
+      ({ s with rd := some r, rdLive := false }, s!"size={r.size} " ++ rdState r)
   | ["r", ty] =>
     match s.rd, parseTyS ty with
     | none, _ => (s, "dead")
@@ -250,5 +259,7 @@ def stepSt (s : St) : List String → St × String
         | .fault => "full=fault"
       (s, ",".intercalate (rle idx ++ [full, "vals=ok"]))
   | _ => (s, "bad-op")
+
+def stepSt (s : St) (w : List String) : St × String := stepSt0 (sync s) w
 
 def main : IO Unit := Driver.run ({} : St) stepSt
